@@ -88,6 +88,8 @@ func c09(x *Ctx) {
 	c.Min(r1, 12)
 	c09sorted(x, "C09.sorted-values")
 
+	x.integerCompareExact("C09.integer-compare-exact")
+
 	// ---- key stringification has no lossy numeric conversion --------------------------------------------
 	// (a float64 squeezed through int64, or a wide integer through a narrower one, prints different digits
 	// from the same number delivered as uint64/int64 by another encoding once it is out of range)
@@ -126,73 +128,7 @@ func c09(x *Ctx) {
 		}
 	}
 
-	// ---- span-order independence of the root-only shortcut ---------------------------------------------------
-	// extractValueFromSpan tells its caller whether only root.-prefixed fields were examined (then the other
-	// spans need not be looked at). That answer depends on every field examined so far, not on the one that
-	// produced the value: inside the loop over fields it has to be carried from iteration to iteration.
-	const r4 = "C09.root-shortcut-carried"
-	if ef := x.Fn(r4, "sample", "", "extractValueFromSpan"); ef != nil && ef.Signature.Results().Len() == 3 {
-		n := 0
-		eng.Instrs(ef, func(in ssa.Instruction) {
-			ret, ok := in.(*ssa.Return)
-			if !ok || len(ret.Results) != 3 {
-				return
-			}
-			h := exitLoopHeader(ret)
-			if h == nil {
-				return
-			}
-			n++
-			c.Examined++
-			carried, local := false, ""
-			seen := map[ssa.Value]bool{}
-			var walk func(v ssa.Value)
-			walk = func(v ssa.Value) {
-				if v == nil || seen[v] {
-					return
-				}
-				seen[v] = true
-				switch y := v.(type) {
-				case *ssa.Const:
-				case *ssa.Phi:
-					if y.Block() == h {
-						carried = true
-						return
-					}
-					// a choice between constants made inside this iteration is information about the current field only
-					if h.Dominates(y.Block()) {
-						allConst := true
-						for _, e := range y.Edges {
-							if _, isK := e.(*ssa.Const); !isK {
-								allConst = false
-							}
-						}
-						if allConst && len(y.Edges) > 1 {
-							local = "a flag set from the current field alone"
-						}
-					}
-					for _, e := range y.Edges {
-						walk(e)
-					}
-				case *ssa.BinOp:
-					walk(y.X)
-					walk(y.Y)
-				case *ssa.UnOp:
-					walk(y.X)
-				default:
-					if in, ok := v.(ssa.Instruction); ok && h.Dominates(in.Block()) && in.Block() != h {
-						local = v.String()
-					}
-				}
-			}
-			walk(ret.Results[2])
-			c.Decide(carried || local == "", r4, "extractValueFromSpan/return-in-loop", x.Pos(ret), "the root-only flag is carried across the fields examined",
-				"the 'only the root span was examined' flag returned from inside the loop over fields is computed from the current field alone ("+local+"): with mixed root./plain fields the caller stops at the first span, so whether a rule matches depends on the order in which the spans arrived")
-		})
-		if n == 0 {
-			c.Hold(r4, "extractValueFromSpan/no-return-in-loop", x.PosOf(ef.Pos()), "no value is returned from inside the loop over fields")
-		}
-	}
+	x.rootShortcutCarried("C09.root-shortcut-carried")
 }
 
 func lookupBasic(name string) (*types.Basic, bool) {
@@ -463,6 +399,137 @@ func c11(x *Ctx) {
 			o.Path = eng.DescribePath(x.P.Pos, path)
 		} else {
 			c.Hold(rS, "AddAsString", x.PosOf(af.Pos()), "every answer follows a look-up in values[fieldIdx]")
+		}
+	}
+}
+
+// integerCompareExact: the untyped rule comparison compares two integers as integers (shared by C08 and C09).
+func (x *Ctx) integerCompareExact(r2b string) {
+	c := x.C
+	// ---- two integers are compared as integers -----------------------------------------------------------------
+	// (untyped rule comparison: routing int64 × int64 through float64 makes neighbouring 64-bit values – ids,
+	// nanosecond timestamps – compare equal, so a rule matches for one encoding/magnitude and not for another)
+	if cf := x.P.Func("sample", "", "compare"); cf != nil && cf.Blocks != nil && len(cf.Params) == 2 {
+		pa, pb := cf.Params[0], cf.Params[1]
+		of := func(v ssa.Value, p *ssa.Parameter) bool {
+			_, d := eng.Derives(v, func(w ssa.Value) bool { return w == ssa.Value(p) }, eng.FlowOpts{})
+			return d
+		}
+		for _, sc := range []struct{ name, ta, tb string }{{"int64×int64", "int64", "int64"}, {"int64×int", "int64", "int"}} {
+			c.Examined++
+			as := &eng.Assume{Bool: func(v ssa.Value) eng.Tri {
+				e, ok := v.(*ssa.Extract)
+				if !ok || e.Index != 1 {
+					return eng.Unknown
+				}
+				ta, ok := e.Tuple.(*ssa.TypeAssert)
+				if !ok || !ta.CommaOk {
+					return eng.Unknown
+				}
+				t := typeString(ta.AssertedType)
+				switch {
+				case of(ta.X, pa) && !of(ta.X, pb):
+					return triOf(t == sc.ta)
+				case of(ta.X, pb) && !of(ta.X, pa):
+					return triOf(t == sc.tb)
+				}
+				return eng.Unknown
+			}, Nil: func(v ssa.Value) eng.Tri {
+				if v == ssa.Value(pa) || v == ssa.Value(pb) {
+					return eng.False
+				}
+				return eng.Unknown
+			}}
+			var bad ssa.Instruction
+			eng.Explore(eng.Query{Fn: cf, Assume: as, TrackPhi: func(*ssa.Phi) bool { return true }, Classify: func(in ssa.Instruction, _ eng.Facts) eng.Event {
+				if cv, ok := in.(*ssa.Convert); ok {
+					from, ok1 := cv.X.Type().Underlying().(*types.Basic)
+					to, ok2 := cv.Type().Underlying().(*types.Basic)
+					if ok1 && ok2 && from.Info()&types.IsInteger != 0 && to.Info()&types.IsFloat != 0 {
+						bad = in
+					}
+				}
+				return eng.EvNone
+			}})
+			p := x.PosOf(cf.Pos())
+			if bad != nil {
+				p = x.Pos(bad)
+			}
+			c.Decide(bad == nil, r2b, "compare/"+sc.name, p, "compared without leaving the integers",
+				"when both the span's value and the rule's value are integers ("+sc.name+") the comparison converts an integer to float64: above 2^53 neighbouring integers compare as equal, so =, !=, <, > give wrong answers for 64-bit ids and nanosecond timestamps")
+		}
+	}
+
+}
+
+// rootShortcutCarried: the "only the root span was examined" flag of field extraction is carried across the
+// fields examined (shared by C08 and C09).
+func (x *Ctx) rootShortcutCarried(r4 string) {
+	c := x.C
+	// ---- span-order independence of the root-only shortcut ---------------------------------------------------
+	// extractValueFromSpan tells its caller whether only root.-prefixed fields were examined (then the other
+	// spans need not be looked at). That answer depends on every field examined so far, not on the one that
+	// produced the value: inside the loop over fields it has to be carried from iteration to iteration.
+	if ef := x.Fn(r4, "sample", "", "extractValueFromSpan"); ef != nil && ef.Signature.Results().Len() == 3 {
+		n := 0
+		eng.Instrs(ef, func(in ssa.Instruction) {
+			ret, ok := in.(*ssa.Return)
+			if !ok || len(ret.Results) != 3 {
+				return
+			}
+			h := exitLoopHeader(ret)
+			if h == nil {
+				return
+			}
+			n++
+			c.Examined++
+			carried, local := false, ""
+			seen := map[ssa.Value]bool{}
+			var walk func(v ssa.Value)
+			walk = func(v ssa.Value) {
+				if v == nil || seen[v] {
+					return
+				}
+				seen[v] = true
+				switch y := v.(type) {
+				case *ssa.Const:
+				case *ssa.Phi:
+					if y.Block() == h {
+						carried = true
+						return
+					}
+					// a choice between constants made inside this iteration is information about the current field only
+					if h.Dominates(y.Block()) {
+						allConst := true
+						for _, e := range y.Edges {
+							if _, isK := e.(*ssa.Const); !isK {
+								allConst = false
+							}
+						}
+						if allConst && len(y.Edges) > 1 {
+							local = "a flag set from the current field alone"
+						}
+					}
+					for _, e := range y.Edges {
+						walk(e)
+					}
+				case *ssa.BinOp:
+					walk(y.X)
+					walk(y.Y)
+				case *ssa.UnOp:
+					walk(y.X)
+				default:
+					if in, ok := v.(ssa.Instruction); ok && h.Dominates(in.Block()) && in.Block() != h {
+						local = v.String()
+					}
+				}
+			}
+			walk(ret.Results[2])
+			c.Decide(carried || local == "", r4, "extractValueFromSpan/return-in-loop", x.Pos(ret), "the root-only flag is carried across the fields examined",
+				"the 'only the root span was examined' flag returned from inside the loop over fields is computed from the current field alone ("+local+"): with mixed root./plain fields the caller stops at the first span, so whether a rule matches depends on the order in which the spans arrived")
+		})
+		if n == 0 {
+			c.Hold(r4, "extractValueFromSpan/no-return-in-loop", x.PosOf(ef.Pos()), "no value is returned from inside the loop over fields")
 		}
 	}
 }
